@@ -663,6 +663,9 @@ func (obj *DenseReal32Matrix) UnmarshalJSON(data []byte) error {
   if err := json.Unmarshal(data, &r); err != nil {
     return err
   }
+  if r.Rows < 0 || r.Cols < 0 || len(r.Values) != r.Rows*r.Cols {
+    return fmt.Errorf("invalid json matrix representation")
+  }
   obj.values = nilDenseReal32Vector(len(r.Values))
   for i := 0; i < len(r.Values); i++ {
     obj.values[i] = r.Values[i]
